@@ -71,17 +71,17 @@ def build(reg):
     reg.native_spec("realm_ok", lambda ex, state, s, eth: VBool(z3.If(eth.t, z3.InRe(s.t, realm_lang(True)),
                                                                       z3.InRe(s.t, realm_lang(False)))))
     IS_ID = "isinstance(value, int) and not isinstance(value, bool) and id_ok(value)"
-    reg.contract(MSG + ":check_or_raise_id", params={"value": UNTRUSTED, "message": "str"}, returns="any",
+    reg.contract(MSG + ":check_or_raise_id", params={"value": UNTRUSTED, "message": "str"}, returns=UNTRUSTED,
                  ensures=[IS_ID, "result is value"], raises={"ProtocolError": "not (%s)" % IS_ID}, **common)
     IS_URI = ("(value is None and allow_none) or (isinstance(value, str) and "
               "uri_ok(value, strict, allow_last_empty, allow_empty_components))")
     reg.contract(MSG + ":check_or_raise_uri",
                  params={"value": UNTRUSTED, "message": "str", "strict": "bool", "allow_empty_components": "bool",
-                         "allow_last_empty": "bool", "allow_none": "bool"}, returns="any",
+                         "allow_last_empty": "bool", "allow_none": "bool"}, returns=UNTRUSTED,
                  ensures=[IS_URI, "result is value"], raises={"InvalidUriError": "not (%s)" % IS_URI}, **common)
     IS_REALM = "isinstance(value, str) and realm_ok(value, allow_eth)"
     reg.contract(MSG + ":check_or_raise_realm_name", params={"value": UNTRUSTED, "message": "str", "allow_eth": "bool"},
-                 returns="any", ensures=[IS_REALM, "result is value"], raises={"InvalidUriError": "not (%s)" % IS_REALM},
+                 returns=UNTRUSTED, ensures=[IS_REALM, "result is value"], raises={"InvalidUriError": "not (%s)" % IS_REALM},
                  **common)
 
 
